@@ -888,6 +888,15 @@ def c10(run, scratch):
             run.add_tlc("MC_CacheHistory_" + cfg, r)
         else:
             run.steps.append({"step": "MC_CacheHistory_" + cfg, "expected_counterexample_found": True})
+    # the same statement for ALL sets of releases and ALL histories: a TLAPS proof of
+    # VersionDiscipline /\ Spec => [](AllAcceptingReleasesAgree /\ NeverGarbage)
+    from .core import run_tlapm
+    proved, total, out, wall = run_tlapm(scratch, "CacheHistoryProofs")
+    run.steps.append({"step": "TLAPS CacheHistoryProofs", "obligations": total, "discharged": proved, "wall_s": round(wall, 2),
+                      "theorems": ["Safety: VersionDiscipline /\\ Spec => [](AllAcceptingReleasesAgree /\\ NeverGarbage)"]})
+    if proved != total:
+        # proofs are about the specification only: a failure cannot be caused by a change to /repo
+        raise ToolError("TLAPS: unproved obligations in CacheHistoryProofs\n" + out[-2000:])
     spec_written_files(run, scratch, t)      # a third writer: the specification itself, read by the current reader
     files = SMALL_CORPUS + (BIG_CORPUS if t else [])
     events = harness_trace(scratch, "xver", "xver", ["--seed", run.seed, "--n", 300 if t else 80, "--queries", 120 if t else 60,
